@@ -429,6 +429,8 @@ func init() {
 		blen := v.smt.declareFun("uf!blobLen", []string{"Int"}, "Int")
 		payload := sel(v.heap(st, v.blobKey()), "(s.arr "+b+")")
 		v.smt.assert(implies(st.reach, eq(app(blen, payload), "(s.len "+b+")")))
+		rowF := v.smt.declareFun("uf!blobRow", []string{"Int"}, "(Array Int Int)")
+		v.smt.assert(implies(and(st.reach, eq("(s.len "+b+")", "1")), eq(sel(app(rowF, payload), "(ix 0 0)"), sel(sel(v.heap(st, v.elemKey(types.Typ[types.Uint8])), "(s.arr "+b+")"), "(ix (s.off "+b+") 0)"))))
 		v.smt.note("a byte slice handed to Write/ReadFull/Unmarshal is identified with the blob of its backing array (not mutated element-wise in between; its length is the blob's length)")
 		v.writeTok(st, id, okT, fmt.Sprint(tkBytes), payload)
 		n := v.smt.define("w.n", "Int", ite(okT, "(s.len "+b+")", "0"))
@@ -442,16 +444,78 @@ func init() {
 		ms.add(KeyInfo{Key: "GH!blob", Ghost: "(Array Int Int)"})
 	}, func(fr *Frame, st *State, c *ssa.CallCommon, args []Val, res ssa.Value) Val {
 		v := fr.v
+		b := fr.term(st, c.Args[0])
+		recv := args[0].T
+		id := "(i.val " + recv + ")"
+		// an in-memory reader (*bytes.Reader, *bytes.Buffer) never returns short: under the token
+		// abstraction a read whose length matches the next Bytes token pops exactly that token, a
+		// read at the end of the stream returns (0, io.EOF); anything else (misaligned) is unspecified
+		stk, sn, sp := v.streamKeys()
+		bytesReader := types.NewPointer(v.eng.lookupType("bytes", "Reader"))
+		bytesBuffer := types.NewPointer(v.eng.lookupType("bytes", "Buffer"))
+		exact := or(fmt.Sprintf("(= (i.tag %s) %d)", recv, v.typeTag(bytesReader)), fmt.Sprintf("(= (i.tag %s) %d)", recv, v.typeTag(bytesBuffer)))
+		pos := sel(v.heap(st, sp), id)
+		cnt := sel(v.heap(st, sn), id)
+		tok := sel(sel(v.heap(st, stk), id), pos)
+		payload := v.smt.define("rd.payload", "Int", "(tk.val "+tok+")")
+		blen := v.smt.declareFun("uf!blobLen", []string{"Int"}, "Int")
+		rowF := v.smt.declareFun("uf!blobRow", []string{"Int"}, "(Array Int Int)")
+		L := "(s.len " + b + ")"
+		hit := v.smt.define("rd.hit", "Bool", and(exact, "(> "+L+" 0)", "(<= 0 "+pos+")", "(< "+pos+" "+cnt+")", eq("(tk.kind "+tok+")", fmt.Sprint(tkBytes)), eq(app(blen, payload), L)))
+		eof := v.smt.define("rd.eof", "Bool", and(exact, "(> "+L+" 0)", "(>= "+pos+" "+cnt+")"))
 		ms := newModSet()
 		streamMods(ms, nil)
-		ms.add(kiElem(types.Typ[types.Uint8]))
+		ek := kiElem(types.Typ[types.Uint8])
+		ms.add(ek)
 		ms.add(KeyInfo{Key: "GH!blob", Ghost: "(Array Int Int)"})
+		before := map[string]string{}
+		for k, ki := range ms.Keys {
+			v.ensureKey(ki)
+			before[k] = v.heap(st, k)
+		}
 		v.havocKeys(st, ms)
-		b := fr.term(st, c.Args[0])
+		for k := range ms.Keys {
+			hv := v.heap(st, k)
+			upd := before[k]
+			switch k {
+			case sp:
+				upd = sto(before[k], id, "(+ "+pos+" 1)")
+			case v.blobKey():
+				upd = sto(before[k], "(s.arr "+b+")", payload)
+			case ek.Key:
+				upd = sto(before[k], "(s.arr "+b+")", app(rowF, payload))
+			}
+			v.setHeap(st, k, ite(hit, upd, ite(eof, before[k], hv)))
+		}
 		n := v.smt.fresh("rd.n", "Int")
 		errT := v.smt.fresh("rd.err", "Iface")
 		v.smt.assert(and("(<= 0 "+n+")", "(<= "+n+" (s.len "+b+"))"))
 		v.smt.assert(v.closedFact(errT, types.Universe.Lookup("error").Type(), v.alloc(st), 0))
+		v.smt.assert(implies(hit, and(eq(n, L), eq(errT, "(mk-iface 0 0)"))))
+		v.smt.assert(implies(eof, and(eq(n, "0"), eq(errT, v.sentinelTerm("io.EOF")))))
+		// reading into the bytes of a named array (txid[:]): the array value is the one that blob encodes
+		if sl, ok := c.Args[0].(*ssa.Slice); ok && sl.Low == nil && sl.High == nil {
+			if pt, ok := sl.X.Type().Underlying().(*types.Pointer); ok && isOpaqueNamed(pt.Elem()) {
+				if arr, ok := pt.Elem().Underlying().(*types.Array); ok {
+					_, fromBlob := v.opaqueBlobFuns(pt.Elem(), arr.Len())
+					base := fr.val(sl.X)
+					var oldV string
+					if base.Loc != nil {
+						oldV = v.loadLoc(st, base.Loc)
+					} else {
+						oldV = v.loadPtr(st, base, pt.Elem())
+					}
+					nv := v.smt.fresh("rd.arr", v.smt.sortOf(pt.Elem()))
+					v.smt.assert(implies(hit, eq(nv, app(fromBlob, payload))))
+					v.smt.assert(implies(eof, eq(nv, oldV)))
+					if base.Loc != nil {
+						v.storeLoc(st, base.Loc, nv)
+					} else {
+						v.storePtr(st, base, pt.Elem(), nv)
+					}
+				}
+			}
+		}
 		out := Val{Tuple: []Val{{T: n}, {T: errT}}}
 		fr.setResult(res, out)
 		return out
